@@ -204,7 +204,9 @@ fn gen_plan(seed: u64) -> MacroPlan {
             } else {
                 [("ck", "cv"), ("dk", "d v")][..nconst].iter().map(|(a, b)| (a.to_string(), b.to_string())).collect()
             };
-            let labels: Vec<String> = if kind.is_vec() { ["l1", "l2"][..1 + r.below(2) as usize].iter().map(|s| s.to_string()).collect() } else { vec![] };
+            // (an empty label-name list is legal for the explicit constructors, so it is for the macros)
+            let nlab = if r.chance(12) { 0 } else { 1 + r.below(2) as usize };
+            let labels: Vec<String> = if kind.is_vec() { ["l1", "l2"][..nlab].iter().map(|s| s.to_string()).collect() } else { vec![] };
             let buckets = match r.below(6) {
                 0 | 1 => DEFAULT_BUCKETS.to_vec(),
                 2 => vec![0.5, 2.0, 8.0],
